@@ -383,7 +383,7 @@ def check_state(scn, st, flip=None):
                        msg='conversion of a valid card failed: %s\n%s' % (r.brief(), body.card),
                        out='err:' + r.exc_type)
     t4 = t4read.parse(r.t4)
-    cls, msg = oracle.structural_cls(t4)
+    cls, msg = oracle.structural_cls(t4, st.options)
     if cls:
         return verdict(False, st, cls=cls, msg=msg, out=sha(r.body))
     matches, unmatched = oracle.identify_surfaces(t4, body.facets)
